@@ -392,6 +392,54 @@ def format (h : Json → Str) (can : Bool) (parse : Str → Option (List (Str ×
   let msg := sanitize h can parse record
   if isInfix Gen.Sanitise.urlGuard msg then redactUrl msg else msg
 
+/-! ## the record `format()` is handed (round 4)
+
+`LogFormatter.format(record)` receives a `logging.LogRecord`, not a text: the caller's *template*
+(`record.msg`), the %-arguments (`record.args`) and whatever the inner formatter appends after the message
+(`exc_info` / `stack_info`).  The text that is sanitised and scrubbed is what the inner formatter makes of
+all of them — never the template. -/
+
+/-- A `logging.LogRecord` as far as `format()` can look into it.  `msg` is `str(record.msg)`, the
+message *template*; `args` are the %-arguments, each as `%s` / `%d` renders it; `trailer` is what
+`logging.Formatter.format` puts after the message (`"\n" + exc_text`, `"\n" + stack_info`). -/
+structure LogRec where
+  msg : Str
+  args : List Str
+  trailer : Str
+
+/-- Python's `template % args` for the directives `%s`, `%d` (arguments already rendered) and `%%`.
+`none`: Python raises (`TypeError` "not enough arguments" / "not all arguments converted", `ValueError`
+for a directive outside this fragment) — `logging` then reports the record on stderr, nothing is emitted. -/
+def pctFormat : Str → List Str → Option Str
+  | [], as => if as.isEmpty then some [] else none
+  | c :: r, as =>
+    if c = '%' then
+      match r with
+      | [] => none
+      | d :: r' =>
+        if d = '%' then (pctFormat r' as).map ('%' :: ·)
+        else if d = 's' ∨ d = 'd' then
+          match as with
+          | a :: as' => (pctFormat r' as').map (a ++ ·)
+          | [] => none
+        else none
+    else (pctFormat r as).map (c :: ·)
+
+/-- `LogRecord.getMessage()`: `msg = str(self.msg); if self.args: msg = msg % self.args`. -/
+def LogRec.getMessage (r : LogRec) : Option Str :=
+  if r.args.isEmpty then some r.msg else pctFormat r.msg r.args
+
+/-- `logging.Formatter.format` for a layout that ends in the message: header fields, the message,
+the trailer.  (The header is the parameter "logging.Formatter's line" of the earlier rounds.) -/
+def stdLine (header : Str) (r : LogRec) : Option Str :=
+  r.getMessage.map fun m => header ++ m ++ r.trailer
+
+/-- `LogFormatter.format(record)` as a whole: the inner formatter (`orig`, a parameter) turns the record
+into a line; that *line* is sanitised and scrubbed. -/
+def formatRec (h : Json → Str) (can : Bool) (parse : Str → Option (List (Str × Json)))
+    (orig : LogRec → Str) (r : LogRec) : Str :=
+  format h can parse (orig r)
+
 /-! ## the specification side: erasure -/
 
 mutual
